@@ -6,7 +6,7 @@ J=${1:-4}
 one() {
   P=$1
   for M in m1 m2; do
-    [ -n "$ONLY_W3$ONLY_W4$ONLY_W5$ONLY_W6$ONLY_W7" ] && continue
+    [ -n "$ONLY_W3$ONLY_W4$ONLY_W5$ONLY_W6$ONLY_W7$ONLY_W8" ] && continue
     [ -f /tmp/wt/$P/out/$M/patch.diff ] || continue
     extra=$(python3 -c "
 import json,sys
@@ -15,6 +15,11 @@ try:
 except Exception: pass")
     tools/seed_eval.sh $P $M $P $extra 2>&1 | cut -c1-330
   done
+  for M in m1 m2 m3; do
+    [ -f /tmp/wt8/$P/out/$M/patch.diff ] || continue
+    WT_BASE=/tmp/wt8 MUT_PREFIX=w8 tools/seed_eval.sh $P $M $P $(cat /tmp/wt8/$P/out/$M/extra 2>/dev/null) 2>&1 | cut -c1-330
+  done
+  [ -n "$ONLY_W8" ] && return
   for M in m1 m2 m3; do
     [ -f /tmp/wt7/$P/out/$M/patch.diff ] || continue
     WT_BASE=/tmp/wt7 MUT_PREFIX=w7 tools/seed_eval.sh $P $M $P $(cat /tmp/wt7/$P/out/$M/extra 2>/dev/null) 2>&1 | cut -c1-330
